@@ -20,6 +20,12 @@ def samples(z, rnd, tier):
         for m in range(1, 13):
             for d in (1, 15):
                 us.add(calendar.timegm((y, m, d, 12, 0, 0)))
+    # the second before and the first second of every month of a leap year, ordinary years and the century year: with either sign of
+    # the offset one of the two is carried across the month boundary, in one direction by ToLoc and in the other by ToUTC
+    for y in (1999, 2000, 2023, 2024, 2026, 2037):
+        for m in range(1, 13):
+            b = calendar.timegm((y, m, 1, 0, 0, 0))
+            us.add(b - 1); us.add(b)
     for _ in range(400 if tier == 'thorough' else 60):
         us.add(rnd.randint(tzif.LO + 86400, tzif.HI - 86400))
     return sorted(u for u in us if tzif.LO + 2 * 86400 < u < tzif.HI - 2 * 86400)
